@@ -1,6 +1,7 @@
 package c13
 
 import (
+	"crypto/ecdsa"
 	"encoding/hex"
 	"encoding/json"
 	"fmt"
@@ -146,9 +147,8 @@ type mon struct {
 	c   *chain.Chain
 	p   params
 
-	ethToVal map[string]int
-	stake    []int64
-	total    int64
+	stake []int64
+	total int64
 
 	archive     map[string]*cpEntry
 	tracks      map[string]*batchTrack
@@ -183,6 +183,11 @@ type mon struct {
 	xr          *rand.Rand
 	sharedRound *evmtypes.SmartContract
 	sharedOld   *evmtypes.SmartContract
+
+	// registered bridge keys over time (rekey.go)
+	keys     *keyModel
+	kr       *rand.Rand
+	proofKey *ecdsa.PrivateKey
 }
 
 type outMsg struct {
@@ -214,11 +219,10 @@ func run(c fw.Case, tier string, rec *fw.Recorder) {
 		rec.Inconclusive("bring-up failed: " + err.Error())
 		return
 	}
-	m := &mon{rec: rec, r: r, w: w, c: w.C, p: p, ethToVal: map[string]int{}, archive: map[string]*cpEntry{}, tracks: map[string]*batchTrack{},
+	m := &mon{rec: rec, r: r, w: w, c: w.C, p: p, archive: map[string]*cpEntry{}, tracks: map[string]*batchTrack{},
 		cancelledTx: map[uint64]bool{}, outbox: map[int][]outMsg{}, claimsQ: map[int][]*skywaytypes.MsgBatchSendToRemoteClaim{}, evNonce: map[string]uint64{}, ethH: 1000,
 		msgs: map[string]*msgTrack{}, jobs: map[string]bool{}, proofs: map[string]*codectypes.Any{}}
-	for i, v := range w.Vals {
-		m.ethToVal[strings.ToLower(v.EthAddr())] = i
+	for i := range w.Vals {
 		m.stake = append(m.stake, p.Stakes[i])
 		m.total += p.Stakes[i]
 	}
@@ -228,6 +232,7 @@ func run(c fw.Case, tier string, rec *fw.Recorder) {
 	rec.Sample(map[string]any{"params": p, "tokens": w.Tokens, "start_height": m.c.Height})
 	m.startH = m.c.Height
 	m.xr = newCrossRand(c.Seed)
+	m.initKeys(c.Seed)
 	if !m.shareCompassIDs() {
 		return
 	}
@@ -462,6 +467,8 @@ func (m *mon) step() {
 	if m.stopped {
 		return
 	}
+	// --- pigeons that come up with a new bridge key register it (rekey.go)
+	m.rekeyOps(h)
 
 	// --- users: bridge traffic
 	for _, u := range w.Users {
@@ -485,7 +492,7 @@ func (m *mon) step() {
 	m.pigeonMessageOps(h)
 	m.flushOutboxes(h)
 	// --- adversary: real bad-signature-evidence transactions (never in a prune block)
-	if h%50 != 0 {
+	if h%50 != 0 && m.keys.sentAt != h {
 		m.realEvidenceOps(h)
 	}
 	// --- jailed validators ask to be released (not in a block whose jailings are being judged)
@@ -539,6 +546,7 @@ func (m *mon) step() {
 	if m.stopped {
 		return
 	}
+	m.noteKeyWindows()
 	m.forkRound()
 }
 
@@ -671,6 +679,7 @@ type evCase struct {
 	Sender   *chain.Account
 	Mode     string        // fork | realtx
 	Conf     *confirmation // the genuine signature the evidence is made of (replays; nil for fabricated signatures)
+	Retired  *retiredKey   // the signature was made with this retired key (rekey.go)
 	Rel      string        // relation of ChainRef to the chain the signature was made for (crossref.go; "" = decide at judgement)
 }
 
@@ -679,7 +688,8 @@ type verdict struct {
 	CP     string
 	Issued bool
 	Entry  *cpEntry
-	Signer int // validator whose registered key signed CP; -1: none
+	Signer int    // validator whose registered key signed CP; -1: none
+	Addr   string // address recovered from the signature over CP
 }
 
 func cloneBatch(b skywaytypes.OutgoingTxBatch) skywaytypes.OutgoingTxBatch {
@@ -713,7 +723,9 @@ func (m *mon) refVerdict(ec evCase) verdict {
 		v.Entry = e
 	}
 	if addr, ok := refRecover(cp, ec.SigHex); ok {
-		if vi, ok := m.ethToVal[strings.ToLower(addr.Hex())]; ok {
+		// the validator that has this address registered now (monitor's model of the registry, rekey.go)
+		v.Addr = addr.Hex()
+		if vi, ok := m.keys.holder[strings.ToLower(addr.Hex())]; ok {
 			v.Signer = vi
 		}
 	}
@@ -766,6 +778,7 @@ func (m *mon) judge(ec evCase, ver verdict, before, after []bool, accepted bool,
 		}
 		m.actWitness(w, ec.ChainRef, ver.Entry)
 		m.chainRefWitness(w, ec)
+		m.keyWitness(w, ec, ver)
 		for k, v := range extra {
 			w[k] = v
 		}
@@ -774,12 +787,8 @@ func (m *mon) judge(ec evCase, ver verdict, before, after []bool, accepted bool,
 	for _, i := range newly {
 		name := m.w.Vals[i].Name + " " + m.w.Vals[i].ValBech()
 		switch {
-		case i != ver.Signer:
-			outcome = "VIOLATION-non-signer"
-			m.rec.Violation("SubmitBadSignatureEvidence/jailed-validator-whose-key-did-not-sign",
-				fmt.Sprintf("bad-signature evidence (%s, %s) jailed %s although the signature is not by its registered key over the subject's checkpoint", ec.Kind, ec.Mode, name),
-				wit(map[string]any{"jailed": name}))
-		case ver.Issued:
+		case ver.Issued && (i == ver.Signer || (ec.Conf != nil && ec.Conf.Signer == i)):
+			// the validator that made this signature over a checkpoint the chain issued (its key may have been replaced since)
 			outcome = "VIOLATION-issued"
 			stage := ver.Entry.Stage
 			m.rec.Count("violations_jailed_for_issued_checkpoint:"+stage, 1)
@@ -793,6 +802,22 @@ func (m *mon) judge(ec evCase, ver verdict, before, after []bool, accepted bool,
 				fmt.Sprintf("%s replayed %s's genuine signature over a checkpoint the chain issued (stage %s, batch %s, first seen at height %d) as bad-signature evidence%s at height %d (%s, batch now %s): the signer was jailed",
 					ec.Sender.Name, m.w.Vals[i].Name, stage, ver.Entry.Key, ver.Entry.FirstSeen, under, m.c.Height, ec.Mode, ec.State),
 				wit(map[string]any{"jailed": name}))
+		case i != ver.Signer && m.isFormerHolder(i, ver.Addr):
+			// the key that signed is one this validator had registered and replaced
+			outcome = "VIOLATION-former-holder"
+			now := "nobody has it registered"
+			if ver.Signer >= 0 {
+				now = m.w.Vals[ver.Signer].Name + " has it registered"
+			}
+			m.rec.Violation("SubmitBadSignatureEvidence/jailed-former-holder-of-retired-key",
+				fmt.Sprintf("bad-signature evidence (%s, %s) jailed %s for a signature by %s, a key it replaced at height %d (its registered key is %s; %s)",
+					ec.Kind, ec.Mode, name, ver.Addr, m.replacedAt(i, ver.Addr), m.keys.cur[i], now),
+				wit(map[string]any{"jailed": name}))
+		case i != ver.Signer:
+			outcome = "VIOLATION-non-signer"
+			m.rec.Violation("SubmitBadSignatureEvidence/jailed-validator-whose-key-did-not-sign",
+				fmt.Sprintf("bad-signature evidence (%s, %s) jailed %s although the signature is not by its registered key over the subject's checkpoint", ec.Kind, ec.Mode, name),
+				wit(map[string]any{"jailed": name}))
 		default:
 			outcome = "jailed-bad-signer"
 			m.rec.Count("control_bad_sig_jailed", 1)
@@ -801,10 +826,25 @@ func (m *mon) judge(ec evCase, ver verdict, before, after []bool, accepted bool,
 	}
 	// control: a registered validator key over a never-issued checkpoint must jail
 	if ver.RefOK && !ver.Issued && ver.Signer >= 0 && !before[ver.Signer] && !after[ver.Signer] && strings.HasPrefix(ec.Kind, "bad:") {
-		outcome = "CONTROL-FAILED"
-		m.rec.Count("control_bad_sig_not_jailed", 1)
-		m.rec.Inconclusive(fmt.Sprintf("control failed: evidence with a signature by %s over a never-issued checkpoint (%s, %s) did not jail (handler: %s) - replay verdicts would be vacuous",
-			m.w.Vals[ver.Signer].Name, ec.Kind, ec.Mode, errText))
+		if why := m.keyUnsettled(ver.Signer, ec.ChainRef); why != "" {
+			// the registration is not settled (released from jail and not in a snapshot yet / key just replaced):
+			// the statement allows either outcome, the control is not demanded (rekey.go)
+			outcome = "control-not-demanded"
+			m.rec.Count("control_not_demanded:"+why, 1)
+		} else {
+			outcome = "CONTROL-FAILED"
+			m.rec.Count("control_bad_sig_not_jailed", 1)
+			m.rec.Inconclusive(fmt.Sprintf("control failed: evidence with a signature by %s over a never-issued checkpoint (%s, %s) did not jail (handler: %s) - replay verdicts would be vacuous",
+				m.w.Vals[ver.Signer].Name, ec.Kind, ec.Mode, errText))
+		}
+	}
+	if ver.Issued && ver.Signer < 0 && ec.Conf != nil && ver.Entry == ec.Conf.Entry && m.isFormerHolder(ec.Conf.Signer, ver.Addr) {
+		// a genuine signature over an issued checkpoint, made with a key its signer has replaced since
+		if before[ec.Conf.Signer] {
+			m.rec.Count("replay_signer_already_jailed", 1)
+		} else {
+			m.rec.Count("replay_tried_key_replaced_since:"+ec.Mode+"/signed="+ver.Entry.Stage, 1)
+		}
 	}
 	if ver.Issued && ver.Signer >= 0 {
 		m.rec.Count(fmt.Sprintf("replay_tried:%s/signed=%s/now=%s", ec.Mode, ver.Entry.Stage, ec.State), 1)
@@ -817,6 +857,7 @@ func (m *mon) judge(ec evCase, ver verdict, before, after []bool, accepted bool,
 		}
 	}
 	m.noteChainRef(ec, before)
+	keyKey := m.noteRetired(ec, before, after)
 	m.rec.Count("evidence_"+ec.Mode+":"+strings.SplitN(ec.Kind, ":", 2)[0], 1)
 	actKey := ""
 	if len(m.acts) > 0 {
@@ -826,7 +867,7 @@ func (m *mon) judge(ec evCase, ver verdict, before, after []bool, accepted bool,
 			actKey += "|issued-in=" + ver.Entry.Act
 		}
 	}
-	m.rec.Distinct(fmt.Sprintf("ev|%s|%s|%s|%s|%s|%s|issued=%v|signer=%v%s", ec.Mode, ec.Kind, ec.Stage, ec.State, m.senderClass(ec.Sender, ver), outcome, ver.Issued, ver.Signer >= 0, actKey))
+	m.rec.Distinct(fmt.Sprintf("ev|%s|%s|%s|%s|%s|%s|issued=%v|signer=%v%s%s", ec.Mode, ec.Kind, ec.Stage, ec.State, m.senderClass(ec.Sender, ver), outcome, ver.Issued, ver.Signer >= 0, actKey, keyKey))
 	if m.nSample < 2 && ver.Issued && ver.Signer >= 0 {
 		m.nSample++
 		m.rec.Sample(map[string]any{"evidence_replay": map[string]any{"height": m.c.Height, "mode": ec.Mode, "kind": ec.Kind, "signed_stage": ec.Stage, "batch_now": ec.State,
@@ -938,17 +979,21 @@ var deadAddr = "0x00000000000000000000000000000000DeaD0001"
 
 // fabricate turns an issued batch into one the chain never issued.
 func (m *mon) fabricate(e *cpEntry) (skywaytypes.OutgoingTxBatch, string) {
+	return m.fabricateR(m.r, e)
+}
+
+func (m *mon) fabricateR(r *rand.Rand, e *cpEntry) (skywaytypes.OutgoingTxBatch, string) {
 	s := cloneBatch(e.Subject)
 	for try := 0; try < 8; try++ {
 		s = cloneBatch(e.Subject)
 		what := ""
-		switch m.r.Intn(7) {
+		switch r.Intn(7) {
 		case 0:
 			what = "dest"
-			s.Transactions[m.r.Intn(len(s.Transactions))].DestAddress = common.HexToAddress(deadAddr).Hex()
+			s.Transactions[r.Intn(len(s.Transactions))].DestAddress = common.HexToAddress(deadAddr).Hex()
 		case 1:
 			what = "amount"
-			i := m.r.Intn(len(s.Transactions))
+			i := r.Intn(len(s.Transactions))
 			s.Transactions[i].Erc20Token.Amount = s.Transactions[i].Erc20Token.Amount.AddRaw(1)
 		case 2:
 			what = "nonce"
@@ -1069,6 +1114,8 @@ func (m *mon) forkRound() {
 	}
 	// genuine signatures under chain reference ids that are not the batch's (own random stream)
 	m.crossRefRound()
+	// fabricated batches signed with keys validators have retired (own random stream)
+	m.rekeyRound()
 }
 
 // realEvidenceOps: at most one real evidence transaction per block.
@@ -1104,6 +1151,10 @@ func (m *mon) realEvidenceOps(h int64) {
 	if !have {
 		// a genuine signature under a chain reference id that is not the batch's (own random stream)
 		ec, have = m.crossRefReal()
+	}
+	if !have {
+		// a never-issued batch signed with a key some validator has retired (own random stream)
+		ec, have = m.rekeyReal()
 	}
 	if !have {
 		return
@@ -1378,7 +1429,7 @@ func (m *mon) proof(mt *msgTrack, group int) *codectypes.Any {
 		return anyv
 	}
 	to := common.HexToAddress(fmt.Sprintf("0x%040x", 0xC0DE000+mt.chainIdx))
-	rtx, err := world.NewRemoteTx(m.w.Vals[0].EthKey, uint64(1000+mt.chainIdx), mt.id*10+uint64(group), &to, []byte{byte(group), 0xca, 0xfe}, 1)
+	rtx, err := world.NewRemoteTx(m.proofKey, uint64(1000+mt.chainIdx), mt.id*10+uint64(group), &to, []byte{byte(group), 0xca, 0xfe}, 1)
 	if err != nil {
 		panic(err)
 	}
